@@ -4,7 +4,7 @@ import math
 import random
 from fractions import Fraction as Fr
 
-from . import core, si, sysgen, engine_build
+from . import core, si, sysgen, engine_build, child
 from .core import g_float, g_list, g_z, g_nat, g_bool
 
 IMPORTS = "Units Grid System Engine EngineBuild AcceptC06 AcceptC05 AcceptC01"
@@ -211,11 +211,24 @@ def oracle(it):
     return None, name          # the looser, model-independent formulation found nothing
 
 
+def observe_child(c):
+    return observe(c, tuple(c["want"]))
+
+
 def build_items(cases, run=None, want=("tables", "dstate", "dxdtf", "euler")):
+    """observations are made in child processes: an engine that crashes or hangs is an observation ("raise:crash"), not the end of the check"""
     engine_build.build(False)
+    obs = child.map_children("c01", "observe_child", [dict(c, want=list(want)) for c in cases], timeout=60)
+    bad = [k for k, o in enumerate(obs) if "timeout" in o or "crash" in o or "error" in o]
+    if bad:
+        rest = child.map_children("c01", "observe_child", [dict(cases[k], want=[w for w in want if w != "euler"]) for k in bad], timeout=60)
+        for k, o2 in zip(bad, rest):
+            if "timeout" in o2 or "crash" in o2 or "error" in o2:
+                raise RuntimeError("observation without the native engine failed: %r" % (o2,))
+            o2["euler"] = "raise:" + ("timeout" if "timeout" in obs[k] else "crash" if "crash" in obs[k] else "error:" + str(obs[k].get("error"))[:60])
+            obs[k] = o2
     items = []
-    for c in cases:
-        o = observe(c, want)
+    for c, o in zip(cases, obs):
         try:
             gc, go = emit(c, o)
         except ValueError:
